@@ -87,6 +87,9 @@ type c04Cfg struct {
 	// repair: after the requests the retry interval elapses (the unknown-outcome repair loop runs) and
 	// its first commit meets this fate: 0 not run, 1 ok, 2 plain error, 3 unknown outcome (dropped)
 	repair int
+	// light: no watcher is registered (fewer threads): used for the three-writer scenario explored with
+	// a preemption in the quick tier
+	light bool
 }
 
 func (c c04Cfg) name() string {
@@ -105,6 +108,9 @@ func (c c04Cfg) name() string {
 	if c.repair > 0 {
 		f += fmt.Sprintf("/repair%d", c.repair)
 	}
+	if c.light {
+		f += "/no-watcher"
+	}
 	return "C04/mem/" + strings.Join(ts, "|") + "/" + f
 }
 
@@ -116,9 +122,13 @@ func c04Scenario(c c04Cfg) *mc.Scenario {
 		w.mustOK(&clientOp{Key: "/r/live", Kind: rCreate, Val: "i1"})
 		w.ops, w.kv.Batches, w.notifs = nil, nil, nil
 		liveRev := uint64(base + 1)
-		evCh, werr := w.b.Watch(bg, "/r/", 0)
-		if werr != nil {
-			panic(werr)
+		var evCh <-chan []*proto.Event
+		if !c.light {
+			var werr error
+			evCh, werr = w.b.Watch(bg, "/r/", 0)
+			if werr != nil {
+				panic(werr)
+			}
 		}
 		base0 := w.kv.Commits()
 		if c.faultAt >= 0 {
@@ -239,8 +249,8 @@ func c04Scenario(c c04Cfg) *mc.Scenario {
 			if !found && committed == issued {
 				x.Fail("C04|probe-unreadable", "a write issued after quiescence (revision %d) is not returned by a range read at the current revision (err %v)", probe.Hdr, err)
 			}
-			seen := false
-			for {
+			seen := c.light
+			for !c.light {
 				n, _, _ := vrt.ChanLen(evCh)
 				if n == 0 {
 					break
@@ -288,6 +298,7 @@ func c04Configs(tier string) []c04Cfg {
 		{{qDelMissing}, {qCreateNew}}, {{qCreateDup}, {qUpdOK}}, {{qUpdFuture}, {qCreateNew}}, {{qCreateNew}, {qCreateNew}, {qCreateNew}},
 		{{qCreateNew, qUpdOK}, {qCreateNew, qDelMissing}},
 	}
+	out = append(out, c04Cfg{threads: [][]c04Req{{qCreateNew}, {qCreateNew}, {qCreateNew}}, faultAt: -1, light: true})
 	for _, t := range conc {
 		out = append(out, c04Cfg{threads: t, faultAt: -1})
 		for _, f := range faults {
@@ -336,7 +347,7 @@ func init() {
 				if c.Tier == "thorough" {
 					p.Bounds = []int{0, 1, 2}
 					p.Shard = true
-				} else if nreq > 2 && !(len(cfg.threads) == 3 && cfg.faultAt < 0) {
+				} else if nreq > 2 && !cfg.light {
 					p.Bounds = []int{0}
 					p.Shard = true
 				} else {
